@@ -24,6 +24,8 @@ def tu_for(tracking):
     s += 'namespace vf { auto root_bol(const %s& in, const position& p) { return in.begin_of_line( p ); } }\n' % it
     s += 'namespace vf { auto root_pos(const %s& in) { return in.position(); } }\n' % it
     s += 'namespace vf { auto root_eol(const %s& in, const position& p) { return in.end_of_line( p ); } }\n' % it
+    if tracking == 'eager':
+        s += 'namespace vf { auto root_bolcc(const InE_cr_crlf& in, const position& p) { return in.begin_of_line( p ); } }\n'
     return s
 
 
@@ -96,6 +98,22 @@ def jobs(tier):
             out.append(Job('bol_%s_%s' % (variant, tr[0]), grp, 'bol', con, ('C19',), prelude=prelude(tr) + PRE,
                            harness=H % {'it': it, 'setup': setup, 'call': '$ENTRY(&in, &p)'}, expect_fail_canary=('canary_exit',),
                            desc='memory_input<%s>::begin_of_line(position), initial counters %s' % (tr, variant)))
+        # begin_of_line() under the policy cr_crlf (line endings "\r" and "\r\n"; Eol::ch is '\r'): a line starts at offset 0, after a
+        # "\r\n", or after a "\r" that is not followed by "\n"; no '\r' between the line start and the position
+        if tr == 'eager':
+            LS = ('(g_bol == 0 || (g_bol >= 2 && IN_BEGIN(self)[g_bol - 2] == 13 && IN_BEGIN(self)[g_bol - 1] == 10)'
+                  ' || (IN_BEGIN(self)[g_bol - 1] == 13 && !(g_bol < g_n && IN_BEGIN(self)[g_bol] == 10)))')
+            frm3 = ('__CPROVER_r_ok(self, sizeof(*self)) && g_n <= MAXN && PTRS_OK_BASE(self) && __CPROVER_r_ok(IN_BEGIN(self), g_n) && __CPROVER_r_ok(p, sizeof(*p))'
+                    ' && g_byte0 == 0 && g_col0 == 1 && g_k <= g_n && p->byte == g_k && g_bol <= g_k && %s && ((g_q >= g_bol && g_q < g_k) ==> IN_BEGIN(self)[g_q] != 13)'
+                    ' && p->column == 1 + (g_k - g_bol)' % LS)
+            itc = 'vf_' + INPUT_TYPES[('eager', 'cr_crlf')]
+            for nm, bound in (('bol_crcrlf_e', None), ('b_bol_crcrlf_e', 'position at most 8 bytes into the input (a backward scan ends within 9 steps), complete unwinding')):
+                con = Contract(R(frm3 + (' && g_k <= 8' if bound else ''), 'position-from-this-input'), A(''),
+                               E('__CPROVER_same_object(RETP, IN_BEGIN(self)) && OFF(RETP) == g_bol', 'BEGIN-OF-LINE-IS-THE-START-OF-THE-LINE-UNDER-THE-INPUTS-EOL-POLICY', ('C19',)),
+                               E('vf_canary', 'canary_exit'))
+                out.append(Job(nm, grp, 'bolcc', con, ('C19',), prelude=prelude(tr) + PRE, unwind=(12 if bound else None), bounded=bound,
+                               harness=H % {'it': itc, 'setup': setup + (' __CPROVER_assume(k <= 8);' if bound else ''), 'call': '$ENTRY(&in, &p)'}, expect_fail_canary=('canary_exit',),
+                               desc='memory_input<eager, eol::cr_crlf>::begin_of_line(position)' + (' BOUNDED companion (real code, no loop contract)' if bound else '')))
         # end_of_line(): first offset e >= g_k where the line ends under the input's eol policy (lf_crlf: "\n" or "\r\n") or the
         # input ends; the real body builds a lazy sub-input and runs until< at< eolf > > on it (loop contract on that loop)
         frm = ('__CPROVER_r_ok(self, sizeof(*self)) && g_n <= MAXN && PTRS_OK_BASE(self) && __CPROVER_r_ok(IN_BEGIN(self), g_n) && __CPROVER_r_ok(p, sizeof(*p))'
